@@ -202,14 +202,14 @@ fn realsrv_child(tier: &str, fairness: bool) -> i32 {
         let (pname, h) = if fairness {
             (
                 format!("{name}/real-listener+transport/fairness/<={}clients", if th { 4 } else { 3 }),
-                RealSrv { smol, max_clients: if th { 4 } else { 3 }, bursts: vec![vec![K::P], vec![K::P, K::P, K::P, K::P], vec![K::B], vec![K::P, K::B, K::P]], endings: vec![Ending::Stays], fairness: true },
+                RealSrv { smol, max_clients: if th { 4 } else { 3 }, bursts: vec![vec![K::P], vec![K::P, K::P, K::P, K::P], vec![K::B], vec![K::P, K::B, K::P]], endings: vec![Ending::Stays], fairness: true, paired: false },
             )
         } else {
             let mut bursts = vec![vec![K::P], vec![K::O], vec![K::P, K::P], vec![K::O, K::P], vec![K::P, K::O], vec![K::F, K::P], vec![K::B], vec![K::O, K::O]];
             if th {
                 bursts.extend([vec![K::H], vec![K::P, K::H, K::O]]);
             }
-            (format!("{name}/real-listener+transport/<=2clients/clients-that-hang-up"), RealSrv { smol, max_clients: 2, bursts, endings: vec![Ending::Stays, Ending::HalfCloses, Ending::Closes], fairness: false })
+            (format!("{name}/real-listener+transport/<=2clients/clients-that-hang-up"), RealSrv { smol, max_clients: 2, bursts, endings: vec![Ending::Stays, Ending::HalfCloses, Ending::Closes], fairness: false, paired: false })
         };
         let st = explore(&pname, h.to_json(), &h, &cfg);
         eprintln!("[real-server child] phase {pname}: {} executions, {} violation classes, {:.1}s", st.evals, st.violations.len(), st.wall);
@@ -217,8 +217,8 @@ fn realsrv_child(tier: &str, fairness: bool) -> i32 {
         if !fairness {
             // calls and replies larger than the kernel's socket buffers: the server's write of a reply
             // is taken in pieces while the client reads
-            let h = RealSrv { smol, max_clients: 1, bursts: vec![vec![K::G], vec![K::P, K::G, K::P]], endings: vec![Ending::Stays], fairness: false };
-            let pname = format!("{name}/real-listener+transport/300KB-calls-and-replies");
+            let h = RealSrv { smol, max_clients: 2, bursts: vec![vec![K::G], vec![K::P, K::G]], endings: vec![Ending::Stays, Ending::ClosesUnread], fairness: false, paired: true };
+            let pname = format!("{name}/real-listener+transport/<=2clients/300KB-calls-and-replies");
             let st = explore(&pname, h.to_json(), &h, &cfg);
             eprintln!("[real-server child] phase {pname}: {} executions, {} violation classes, {:.1}s", st.evals, st.violations.len(), st.wall);
             phases.push(st);
